@@ -83,3 +83,8 @@ func VerifListGroups(c *Conn) (int, error) {
 	r, err := c.listGroups(listGroupsRequestV1{})
 	return len(r.Groups), err
 }
+
+// VerifOwnTransport makes w the owner of t, as NewWriter does for the Transport it builds from a Dialer
+// (NewWriter itself dials the real network and cannot be pointed at the in-memory one): Close then closes
+// the transport's idle connections.
+func VerifOwnTransport(w *Writer, t *Transport) { w.transport = t }
